@@ -12,6 +12,9 @@ credentials may leave the client.
 import base64
 import hashlib
 import hmac
+import os
+import shutil
+import tempfile
 import time
 from typing import Any, Dict, List, Optional, Tuple
 
@@ -200,6 +203,64 @@ def make_server(log):
 
 
 def run_case(case) -> CaseResult:
+    tmp: List[str] = []
+
+    try:
+        return _run_case(case, tmp)
+    finally:
+        for d in tmp:
+            shutil.rmtree(d, ignore_errors=True)
+
+
+PRIOR_NAMES = ('k1', 'k2', 'k3', 'ku', 'kv')
+PRIOR_CAS = ('ca1', 'ca2', 'cau')
+
+
+def as_file(copts, form, labels, tmp: List[str]) -> None:
+    """known_hosts named by path instead of handed over as bytes.  The path
+    held other contents before (which something in this process has read):
+    what counts is what the file says when the connection is made"""
+
+    data = copts['known_hosts']
+
+    if not form or not isinstance(data, bytes):
+        return
+
+    d = tempfile.mkdtemp(prefix='c04-')
+    tmp.append(d)
+    path = os.path.join(d, 'known_hosts')
+    labels.add('known-hosts-file')
+
+    if form.get('prior'):
+        prior = {
+            'all': ''.join('* %s\n' % pubtext(k) for k in PRIOR_NAMES) +
+            ''.join('@cert-authority * %s\n' % pubtext(k)
+                    for k in PRIOR_CAS),
+            'none': '# nothing yet\n',
+            'revoked': ''.join('@revoked * %s\n' % pubtext(k)
+                               for k in PRIOR_NAMES + PRIOR_CAS)}[
+                                   form['prior']]
+
+        with open(path, 'w') as f:
+            f.write(prior)
+
+        asyncssh.read_known_hosts(path)
+        asyncssh.match_known_hosts(path, HOST, ADDR, None)
+        before = os.stat(path)
+        labels.add('known-hosts-file:rewritten')
+
+    with open(path, 'wb') as f:
+        f.write(data)
+
+    if form.get('prior') and form.get('stamp'):
+        # (a file put back by a tool which preserves time stamps)
+        os.utime(path, ns=(before.st_atime_ns, before.st_mtime_ns))
+        labels.add('known-hosts-file:same-mtime')
+
+    copts['known_hosts'] = [path] if form.get('list') else path
+
+
+def _run_case(case, tmp: List[str]) -> CaseResult:
     lines = case['lines']
     host = HOST
     alias = case['alias']
@@ -342,6 +403,9 @@ def run_case(case) -> CaseResult:
     labels.add('identity:' + kind)
     labels.add('why:' + why)
 
+    if kind != 'liar':
+        as_file(copts, case.get('khfile'), labels, tmp)
+
     if kind == 'cert' and refcert is not None:
         ref = RefPeer('server', host_key=refcert)
         conn = RefConn(ref)
@@ -387,6 +451,7 @@ def run_case(case) -> CaseResult:
                                 '[%s]:%d' % (match_name, port),
                                 shown_key.openssh_public().decode())
         copts['known_hosts'] = kh2.encode()
+        as_file(copts, case.get('khfile'), labels, tmp)
         ref = RefPeer('server', host_key=LieKey(shown_key),
                       hostkey_algs=[b'ssh-ed25519'])
         conn = RefConn(ref)
@@ -558,6 +623,9 @@ def strategy(tier: str):
         'port': pick([22, 22, 2222]),
         'via': pick(['direct', 'direct', 'direct', 'tunnel', 'proxy']),
         'ca_via': pick(['known_hosts', 'known_hosts', 'callback']),
+        'khfile': st.one_of(st.none(), st.none(), st.fixed_dictionaries({
+            'prior': pick([None, 'all', 'all', 'none', 'revoked']),
+            'stamp': st.booleans(), 'list': st.booleans()})),
         'identity': ident})
     return st.one_of(general, general, general, one_defect())
 
@@ -621,7 +689,10 @@ FAMILIES = [
                              'window:expired:from-0-to-t',
                              'window:valid:from-0-forever',
                              'match:key', 'match:cert-authority',
-                             'match:revoked', 'shared-known-hosts-object']},
+                             'match:revoked', 'shared-known-hosts-object',
+                             'known-hosts-file',
+                             'known-hosts-file:rewritten',
+                             'known-hosts-file:same-mtime']},
            case_timeout=120),
     Family('leak', run_case, enumerate=leak_cases, exhaustive=True,
            required={'all': ['shared-known-hosts-object', 'accepted',
